@@ -228,9 +228,23 @@ func c02Apply(s *vk.BundleSpec, e c02Edit) string {
 		return vk.RZeroTimeNoAge
 	case "hop>limit":
 		lim := []uint64{0, 1, 23, 24, 100, 254}[v%6]
-		cnt := lim + 1 + uint64(v/6)%3
-		if cnt > 255 {
-			cnt = 255
+		var cnt uint64
+		switch mode := (v / 6) % 8; mode {
+		case 0, 1, 2:
+			if cnt = lim + 1 + uint64(mode); cnt > 255 {
+				cnt = 255
+			}
+		// counts that do not fit the implementation's 8 bit field and look harmless once truncated
+		case 3:
+			cnt = 256 + lim/2
+		case 4:
+			cnt = 256 + lim
+		case 5:
+			cnt = 65536 + lim/2
+		case 6:
+			cnt = 1<<32 + lim/2
+		case 7:
+			cnt = 1<<63 + lim/2
 		}
 		if b := c02Find(s, vk.BTHop); b != nil {
 			b.Limit, b.Count = lim, cnt
